@@ -523,10 +523,14 @@ def scenario_runs(ctx, kind, idx, kw, sc, thorough=False):
             fm2, d2 = X.fantasy_model(rng, fm, d1, test_x, cell, 2)
         except Exception as e:
             ctx.count("rejected_fantasy2:" + type(e).__name__)
+            if len(ctx.notes.setdefault("rejected_scenarios", [])) < 12:
+                ctx.notes["rejected_scenarios"].append(f"{kind}{idx} {desc['kernel']} lik={desc['lik']} batch={desc['batch']} "
+                                                       f"fantasy>fantasy {G.cell_name(cell)}: {type(e).__name__}: {str(e)[:160]}")
             fm2 = None
         if fm2 is not None:
             judge("fantasy>fantasy", fm2, d2, cell)
-        judge("fantasy|source-afterwards", model, desc, cell)
+        if sc.get("source"):
+            judge("fantasy|source-afterwards", model, desc, cell)
     else:
         raise ValueError(typ)
     return out
@@ -644,7 +648,7 @@ def correspondence(ctx, extra=False):
     torch.set_num_threads(2)
     thorough = ctx.tier == "thorough" or extra
     n_single, n_multi, ncell = (60, 12, 10) if not thorough else (220, 32, 64)
-    n_ext, ncell_ext = (len(X.EXT_ALWAYS) + 7, 6) if not thorough else (3 * len(X.EXT_KERNEL_KINDS), 64)
+    n_ext, ncell_ext = (len(X.EXT_ALWAYS) + 7, 5) if not thorough else (3 * len(X.EXT_KERNEL_KINDS), 64)
     workers = 4 if not thorough else 10
     n_nd = 6 if not thorough else 30
     if os.environ.get("VERIF_C01_CASES"):
@@ -693,22 +697,28 @@ def correspondence(ctx, extra=False):
                      {"type": "cells-state", "cell": cells[0], "cells": [c for c, _ in runs]})
         # ---- wave 3 scenarios, each on a FRESH build of this case (so that a replay is exact): repeated predictions on
         #      one object; copy histories; the models returned by get_fantasy_model
+        #      quick: repeat on every model, copy / fantasy on alternating models (one op / one cell each);
+        #      thorough: every copy op and six fantasy cells per model, each also judged under a second cell
+        other = lambda c1: crng.choice([c for c in G.all_cells() if c["cg"] == c1["cg"] and c != c1])
         scen = [{"type": "repeat", "cell": crng.choice(G.all_cells())}]
-        copy_ops = list(X.COPY_OPS) if thorough else [X.COPY_OPS[n_scen % len(X.COPY_OPS)]]
-        for k, op in enumerate(copy_ops):
-            c1 = cell_cycle[(3 * n_scen + k) % 64]
-            scen.append({"type": "copy", "op": op, "cell": c1,
-                         "cell2": crng.choice([c for c in G.all_cells() if c["cg"] == c1["cg"] and c != c1])})
-        for k in range(1 if not thorough else 6):
-            c1 = cell_cycle[(5 * n_scen + 11 * k + 1) % 64]
-            scen.append({"type": "fantasy", "cell": c1,
-                         "cell2": crng.choice([c for c in G.all_cells() if c["cg"] == c1["cg"] and c != c1])})
+        if thorough or n_scen % 2 == 0:
+            copy_ops = list(X.COPY_OPS) if thorough else [X.COPY_OPS[(n_scen // 2) % len(X.COPY_OPS)]]
+            for k, op in enumerate(copy_ops):
+                c1 = cell_cycle[(3 * n_scen + k) % 64]
+                scen.append({"type": "copy", "op": op, "cell": c1, "cell2": other(c1) if thorough else None})
+        if thorough or n_scen % 2 == 1:
+            for k in range(1 if not thorough else 6):
+                c1 = cell_cycle[(5 * n_scen + 11 * k + 1) % 64]
+                scen.append({"type": "fantasy", "cell": c1, "cell2": other(c1), "source": thorough})
         n_scen += 1
         for sc in scen:
             try:
                 res = scenario_runs(ctx, kind, idx, kw, sc, thorough)
             except X.Rejected as e:
                 ctx.count(f"rejected_scenario:{sc['type']}:" + str(e).split(":")[0][:60])
+                if len(ctx.notes.setdefault("rejected_scenarios", [])) < 12:
+                    ctx.notes["rejected_scenarios"].append(f"{kind}{idx} {desc['kernel']} lik={desc['lik']} batch={desc['batch']} "
+                                                           f"{sc['type']}:{sc.get('op', '')} {G.cell_name(sc['cell'])}: {e}")
                 continue
             except Exception as e:
                 name = sc["type"] + (":" + sc["op"] if "op" in sc else "")
